@@ -42,6 +42,8 @@ class SharedTimedMutex : public SharedMutex {
       } else {
         r = _shared_queue.Wait(timeout) == WaitStatus::Ready;
       }
+      // another fiber may have taken the mutex between the notify and our resumption: then the attempt fails
+      r = r && !(_occupied && (exclusive || _exclusive_mode));
     }
     YACLIB_DEBUG(r && _occupied && (exclusive || _exclusive_mode), "about to be locked twice and not in a good way");
     if (r) {
